@@ -18,8 +18,7 @@ type TraitOf[V any] struct {
 // NewTraitOf instantiates new TraitOf.
 func NewTraitOf[V any](config Config, options ...func(t *Trait)) *TraitOf[V] {
 	t := &TraitOf[V]{}
-
-	t.Trait = *NewTrait(config, options...)
+	t.Trait.init(config, options...)
 
 	return t
 }
